@@ -63,6 +63,8 @@ func init() {
 				add("c08", rep, c08Params{Kind: "concurrent", Shard: rep, N: tierPick(tier, 1200, 4000)}, 600)
 				add("c11", rep, c11Params{Kind: "concurrent", Store: storeKind{Impl: "badger", Typed: rep%2 == 0, Prefix: "r"}, Histories: tierPick(tier, 6, 20)}, 900)
 				add("c11", rep, c11Params{Kind: "concurrent", Store: storeKind{Impl: "mock", Typed: false, Prefix: ""}, Histories: tierPick(tier, 6, 20)}, 900)
+				// untyped store objects, fresh in every history (lazily resolved defaults are first used concurrently)
+				add("c11", rep, c11Params{Kind: "concurrent", Store: storeKind{Impl: "badger", Typed: false, Prefix: ""}, Histories: tierPick(tier, 12, 40)}, 900)
 				add("c13", rep, idxParams{Kind: "concurrent", Typed: rep%2 == 0, Prefix: "c", Histories: tierPick(tier, 3, 8)}, 900)
 				add("c14", rep, idxParams{Kind: "service", Typed: true, Prefix: "sv", Histories: tierPick(tier, 3, 8), Shard: rep}, 900)
 				add("c15", rep, c15Params{Kind: "nats", Events: 10, Duration: 10, Rounds: tierPick(tier, 2, 5), Workers: 4}, 600)
